@@ -111,6 +111,7 @@ FailExact(Asg, st, ev) ==
          IF ev.exc = "UnsatError" THEN (IF V = {} THEN {} ELSE {"unsat-on-sat"})
          ELSE IF ev.exc # "" THEN {"exc"}
          ELSE IF ev.conc /\ V = {} THEN (IF R = <<EvalV(ev.e, a0)>> \/ R = <<>> THEN {} ELSE {"eval-infeasible"})
+         ELSE IF V = {} /\ Len(R) > 0 THEN {"eval-on-unsat"}
          ELSE (IF SeqRange(R) \subseteq V THEN {} ELSE {"eval-infeasible"})
               \cup (IF NoDup(R) THEN {} ELSE {"eval-duplicates"})
               \cup (IF Len(R) = Min2(ev.n, Cardinality(V)) THEN {} ELSE {"eval-count"})
@@ -119,6 +120,7 @@ FailExact(Asg, st, ev) ==
          IF ev.exc = "UnsatError" THEN (IF V = {} THEN {} ELSE {"unsat-on-sat"})
          ELSE IF ev.exc # "" THEN {"exc"}
          ELSE IF ev.conc /\ V = {} THEN {}
+         ELSE IF V = {} /\ Len(ev.ret) > 0 THEN {"eval-on-unsat"}
          ELSE (IF SeqRange(ev.ret) \subseteq V THEN {} ELSE {"eval-infeasible"})
               \cup (IF NoDup(ev.ret) THEN {} ELSE {"eval-duplicates"})
               \cup (IF Len(ev.ret) = Min2(ev.n, Cardinality(V)) THEN {} ELSE {"eval-count"})
@@ -134,6 +136,7 @@ FailExact(Asg, st, ev) ==
          IF ev.exc = "UnsatError" THEN (IF F = {} THEN {} ELSE {"unsat-on-sat"})
          ELSE IF ev.exc # "" THEN {"exc"}
          ELSE IF ev.conc /\ F = {} THEN {}
+         ELSE IF F = {} /\ ev.ret[1][1] = <<1>> THEN {"solution-on-unsat"}
          ELSE IF ev.ret[1][1] = B(truth) THEN {} ELSE {"solution"}
     [] ev.call \in {"is_true", "is_false"} ->
          IF ev.exc = "UnsatError" THEN (IF F = {} THEN {} ELSE {"unsat-on-sat"})
@@ -151,12 +154,16 @@ FailExact(Asg, st, ev) ==
          IF ev.exc # "" THEN {"exc"} ELSE
          LET G == ev.groups
              gv(k) == UNION {FreeVars(G[k][i]) : i \in 1..Len(G[k])}
-             gs(k) == UNION {Conjuncts(G[k][i]) : i \in 1..Len(G[k])} \ {TrueT}
-             want == ConjunctsAll(ev.scons) \ {TrueT}
-         IN (IF \A j, k \in 1..Len(G) : j # k => gv(j) \cap gv(k) = {} THEN {} ELSE {"split-shared-vars"})
-            \cup (IF UNION {gs(k) : k \in 1..Len(G)} = want THEN {} ELSE {"split-conjuncts"})
-            \cup (IF \A j, k \in 1..Len(G) : j # k => gs(j) \cap gs(k) = {} THEN {} ELSE {"split-duplicate"})
-            \cup (IF {a \in Asg : \A k \in 1..Len(G) : a \in DenAll(Asg, G[k])} = M THEN {} ELSE {"split-models"})
+             gd(k) == DenAll(Asg, G[k])
+             want == ConjunctsAll(ev.scons)
+         IN \* parts share no variables
+            (IF \A j, k \in 1..Len(G) : j # k => gv(j) \cap gv(k) = {} THEN {} ELSE {"split-shared-vars"})
+            \* every conjunct of s is carried by one part (semantically: claripy may have simplified it there);
+            \* because parts share no variables a non-trivial conjunct cannot be carried by two of them
+            \cup (IF \A c \in want : Den(Asg, c) = Asg \/ \E k \in 1..Len(G) : gd(k) \subseteq Den(Asg, c)
+                  THEN {} ELSE {"split-conjuncts"})
+            \* together the parts are equivalent to s
+            \cup (IF {a \in Asg : \A k \in 1..Len(G) : a \in gd(k)} = M THEN {} ELSE {"split-models"})
     [] ev.call \in Mutating -> IF ev.exc # "" THEN {"exc"} ELSE {}
     [] OTHER -> {}
 
@@ -175,6 +182,7 @@ FailApprox(Asg, st, ev) ==
     [] ev.call \in {"min", "max"} ->
          LET V == Vals(F, ev.e) IN
          IF ev.exc = "UnsatError" THEN (IF V = {} THEN {} ELSE {"approx-unsat-on-sat"})
+         ELSE IF ev.exc = "NoneAnswer" THEN (IF V = {} THEN {} ELSE {"approx-none-on-sat"})
          ELSE IF ev.exc # "" THEN {"exc"}
          ELSE IF V = {} THEN {}
          ELSE IF ev.call = "min"
